@@ -60,8 +60,9 @@ def fop(rng):
 
 
 class Snip:
-    def __init__(self, defs="", glob="", body=None, val="0.0", sched=False, tag=""):
+    def __init__(self, defs="", glob="", body=None, val="0.0", sched=False, tag="", persist=0):
         self.defs, self.glob, self.body, self.val, self.sched, self.tag = defs, glob, body or [], val, sched, tag
+        self.persist = persist      # heap objects owned by a global of the snippet: they must stay alive on every sample
 
 
 def s_local_closure(rng, i):
@@ -192,7 +193,7 @@ def s_box_list(rng, i):
         return Snip(defs=defs, body=[f"let l{i} = {list_lit(i, xs)}"], val=fnum(rng),
                     tag="box-local-single" if n == 1 else "box-local-unused")
     if mode == 1:      # global list folded in dsp
-        return Snip(defs=defs, glob=f"let gl{i} = {list_lit(i, xs)}\n", val=f"sum{i}(gl{i})", tag="box-global")
+        return Snip(defs=defs, glob=f"let gl{i} = {list_lit(i, xs)}\n", val=f"sum{i}(gl{i})", tag="box-global", persist=n)
     if mode == 2:
         return Snip(defs=defs, body=[f"let l{i} = {list_lit(i, xs)}"], val=f"(sum{i}(l{i}) + len{i}(l{i}))",
                     tag="box-passed")
@@ -265,6 +266,67 @@ def s_shared_upvalue(rng, i):
                 val=f"sa{i}({fnum(rng)})", tag="shared-upvalue")
 
 
+FORWARDS = [
+    ("if", lambda x, nil, i: f"if (gate{i}) {x} else {nil}"),
+    ("if-else-arm", lambda x, nil, i: f"if (gate{i} - 1.0) {nil} else {x}"),
+    ("block", lambda x, nil, i: f"{{ {x} }}"),
+    ("if-blocks", lambda x, nil, i: f"if (gate{i}) {{ {x} }} else {{ {nil} }}"),
+    ("match-same", lambda x, nil, i: f"match {x} {{ Nil{i} => {x}, Cons{i}(h, t) => {x} }}"),
+    ("match-tail", lambda x, nil, i: f"match {x} {{ Nil{i} => {nil}, Cons{i}(h, t) => t }}"),
+    ("tuple-proj", lambda x, nil, i: f"({x}, 1.0).0"),
+    ("record-proj", lambda x, nil, i: f"{{a = {x}, b = 1.0}}.a"),
+    ("identity-call", lambda x, nil, i: f"idl{i}({x})"),
+    ("pipe", lambda x, nil, i: f"({x} |> idl{i})"),
+    ("let-alias", lambda x, nil, i: f"{{ let al{i} = {x}\n   al{i} }}"),
+    ("nested-if-block", lambda x, nil, i: f"if (gate{i}) {{ if (gate{i}) {x} else {nil} }} else {nil}"),
+    ("var", lambda x, nil, i: x),
+]
+
+
+def s_forward(rng, i):
+    """An OWNED recursive value (a global, or a `let` of dsp) flows into a variant constructor or a call through a
+    forwarding expression (if arm, block, match arm, projection, identity call, pipe); the temporary dies, then the
+    owner is read again, in the same sample and on every later one.  Steady and safe on a correct VM."""
+    n = rng.range(1, 4)
+    xs = [fnum(rng) for _ in range(n)]
+    defs = (f"type rec L{i} = Nil{i} | Cons{i}(float, L{i})\n"
+            f"fn sum{i}(l: L{i}) -> float {{ match l {{ Nil{i} => 0.0, Cons{i}(h, t) => h + sum{i}(t) }} }}\n"
+            f"fn idl{i}(l: L{i}) -> L{i} {{ l }}\n")
+    fname, fw = rng.choice(FORWARDS)
+    owner_global = rng.chance(2, 3)
+    owner = f"base{i}" if owner_global else f"own{i}"
+    glob = f"let gate{i} = 1.0\n" + (f"let base{i} = {list_lit(i, xs)}\n" if owner_global else "")
+    body = [] if owner_global else [f"let own{i} = {list_lit(i, xs)}"]
+    fwd = fw(owner, f"Nil{i}", i)
+    sink = rng.below(4)
+    if sink == 0:       # new cell in front of the forwarded value, dies at the end of the inner block
+        body.append(f"let fst{i} = {{\n    let nl{i} = Cons{i}({fnum(rng)}, {fwd})\n    0.0\n  }}")
+        val = f"(fst{i} + sum{i}({owner}))"
+    elif sink == 1:     # two cells
+        body.append(f"let fst{i} = {{\n    let nl{i} = Cons{i}({fnum(rng)}, Cons{i}({fnum(rng)}, {fwd}))\n    sum{i}(nl{i})\n  }}")
+        val = f"(fst{i} + sum{i}({owner}))"
+    elif sink == 2:     # passed to a function
+        val = f"(sum{i}({fwd}) + sum{i}({owner}))"
+    else:               # bound, then used twice
+        body.append(f"let fw{i} = {fwd}")
+        val = f"(sum{i}(fw{i}) + sum{i}(Cons{i}({fnum(rng)}, fw{i})) + sum{i}({owner}))"
+    return Snip(defs=defs, glob=glob, body=body, val=val, tag="forward-" + fname + ("-global" if owner_global else "-let"),
+                persist=(n if owner_global else 0))
+
+
+def s_let_result(rng, i):
+    """a list built in a `let` and returned as the value of the function / block (known finding F26 when boxed)"""
+    n = rng.range(1, 4)
+    xs = [fnum(rng) for _ in range(n)]
+    defs = (f"type rec L{i} = Nil{i} | Cons{i}(float, L{i})\n"
+            f"fn sum{i}(l: L{i}) -> float {{ match l {{ Nil{i} => 0.0, Cons{i}(h, t) => h + sum{i}(t) }} }}\n")
+    if rng.chance(1, 2):
+        return Snip(defs=defs + f"fn mkl{i}() -> L{i} {{ let l = {list_lit(i, xs)}\n  l }}\n", val=f"sum{i}(mkl{i}())",
+                    tag="let-result")
+    return Snip(defs=defs, body=[f"let r{i} = {{ let l{i} = {list_lit(i, xs)}\n    l{i} }}"], val=f"sum{i}(r{i})",
+                tag="let-result")
+
+
 def s_plain(rng, i):
     return Snip(defs=f"fn pl{i}(x:float){{ x {fop(rng)} {fnum(rng)} + mem(x) }}\n", val=f"pl{i}({fnum(rng)})", tag="plain")
 
@@ -273,7 +335,7 @@ SNIPPETS = [s_local_closure, s_local_closure, s_local_counter, s_escape, s_escap
             s_hof_lambda, s_hof_named, s_hof_var, s_compose, s_twice, s_pipe, s_tuple_closure, s_record_closure,
             s_global_closure, s_global_counter, s_global_replicate, s_global_stateful, s_box_list, s_box_list,
             s_box_tree, s_box_option, s_sched_self, s_sched_lambda_dsp, s_sched_metro, s_sched_counter, s_plain,
-            s_shared_upvalue]
+            s_shared_upvalue, s_forward, s_forward, s_forward, s_forward, s_forward, s_forward, s_let_result]
 # snippets that only use objects made during global initialisation: the property must hold with no exception
 STEADY_TAGS = {"global-closure", "box-global", "box-none", "plain", "sched-metro", "sched-letrec", "box-local-single"}
 
@@ -292,7 +354,7 @@ def gen_program(rng, only_steady=False):
     body = "\n".join("    " + st for s in snips for st in s.body)
     val = " + ".join(s.val for s in snips)
     src += "fn dsp(){\n" + body + ("\n" if body else "") + "    " + val + "\n}\n"
-    return {"src": src, "sched": True, "tags": [s.tag for s in snips]}
+    return {"src": src, "sched": True, "tags": [s.tag for s in snips], "persist": sum(s.persist for s in snips)}
 
 
 # --------------------------------------------------------------------------------------
@@ -389,9 +451,17 @@ def histories(path):
 
 
 # known-finding classes (KNOWN_FINDINGS.txt); each maps a leaked object's history to a class or None
-F22, F23, F24 = "F22", "F23", "F24"
+F22, F23, F24, F26 = "F22", "F23", "F24", "F26"
 CLASS_OF = {F22: "cloned-closure-never-released", F23: "boxed-value-cloned-never-released",
-            F24: "executed-task-closure-still-referenced"}
+            F24: "executed-task-closure-still-referenced", F26: "let-bound-boxed-value-is-the-result-of-its-scope"}
+
+LET_RESULT = re.compile(r"let\s+(\w+)\s*=[^\n]*\n\s*\1\s*\n?\s*\}")
+
+
+def let_result_pattern(src):
+    """Class predicate of F26 (syntactic): some `let x = ..` is immediately followed by `x` as the last expression of
+    its block / function body, i.e. the let-bound value is the result of the scope that releases it."""
+    return LET_RESULT.search(src) is not None
 
 
 def classify_leak(h):
@@ -453,7 +523,7 @@ def run(ck):
             check_ops(ck, exe, drv, [rp["ops"]])
         else:
             progs = [{"name": rp.get("name", "replay"), "src": rp["src"], "sched": rp.get("sched", True),
-                      "path": rp.get("path"), "tags": rp.get("tags", [])}]
+                      "path": rp.get("path"), "tags": rp.get("tags", []), "persist": rp.get("persist", 0)}]
             check_programs(ck, exe, drv, evdir, progs, rp.get("N", N), EVN, CLS_N, have_h2, known)
         return ck.finish("replay", ["replay"], None)
 
@@ -469,7 +539,10 @@ def run(ck):
         for fn in sorted(os.listdir(cdir)):
             if fn.endswith(".mmm"):
                 p = os.path.join(cdir, fn)
-                progs.append({"name": "corpus/" + fn, "src": open(p).read(), "sched": True, "path": p, "tags": ["corpus"]})
+                csrc = open(p).read()
+                pm = re.search(r"//\s*persist-heap:\s*(\d+)", csrc)
+                progs.append({"name": "corpus/" + fn, "src": csrc, "sched": True, "path": p, "tags": ["corpus"],
+                              "persist": int(pm.group(1)) if pm else 0})
     fixdir = os.path.join(REPO, "crates/lib/mimium-test/tests/mmm")
     for fn in sorted(os.listdir(fixdir)):
         if fn.endswith(".mmm"):
@@ -661,7 +734,8 @@ def check_programs(ck, exe, drv, evdir, progs, N, EVN, CLS_N, have_h2, known):
     for j, p in enumerate(progs):
         r = res[j] if j < len(res) else {"st": "crash", "msg": "missing", "lens": [], "main": [0, 0], "at": -1}
         rep = {"kind": "program", "name": p["name"], "src": p["src"], "sched": p.get("sched", True),
-               "path": p.get("path"), "N": N, "tags": p.get("tags", [])}
+               "path": p.get("path"), "N": N, "tags": p.get("tags", []), "persist": p.get("persist", 0)}
+        f26 = F26 in known and let_result_pattern(p["src"])
         if r["st"] == "compile":
             ck.add("programs_rejected_by_compiler")
             continue
@@ -676,6 +750,10 @@ def check_programs(ck, exe, drv, evdir, progs, N, EVN, CLS_N, have_h2, known):
         m = mon[j] if have_h2 and j < len(mon) else None
         if uaf_panic and (m is None or not m["status"].startswith("reject")):
             # a handle panic that the event log does not explain (or no log): use after release
+            if f26:
+                ck.add("known_" + F26)
+                ck.known(known[F26], f"{p['name']}: panic {r['msg']} at sample {r['at']}")
+                continue
             ck.violation(f"use after release: {UAF_TAGS[r['msg']]} (panic at sample {r['at']})", rep)
             continue
         if m is not None:
@@ -694,6 +772,10 @@ def check_programs(ck, exe, drv, evdir, progs, N, EVN, CLS_N, have_h2, known):
                         + ("use after release / double release" if rc == "INVALID" or opn in ("retain", "release", "use", "close")
                            else "free of a referenced object or model/VM disagreement")
                         + (f"; the VM then panics ({r['msg']}) at sample {r['at']}" if uaf_panic else ""))
+                if rc == "INVALID" and f26:
+                    ck.add("known_" + F26)
+                    ck.known(known[F26], f"{p['name']}: {what}")
+                    continue
                 ck.violation(what, rep)
                 continue
             ck.add("closure_ops_conformance_checked", m.get("ops", 0))
@@ -727,6 +809,32 @@ def check_programs(ck, exe, drv, evdir, progs, N, EVN, CLS_N, have_h2, known):
                 ck.violation(f"live counts differ after sample {bad[0]}: real (closures, heap) = {bad[1]}, model = {bad[2]}",
                              rep)
                 continue
+        # the VM only warns when a retain / release goes through a dead handle
+        if r.get("warn_invalid", 0) > 0:
+            what = (f"{r['warn_invalid']} VM warning(s) `invalid HeapIdx`: heap_retain / heap_release through a handle whose "
+                    f"object has been released")
+            if f26:
+                ck.add("known_" + F26)
+                ck.known(known[F26], f"{p['name']}: {what}")
+            else:
+                ck.violation("use after release: " + what, rep)
+            continue
+        # heap objects owned by globals of the program must be alive after every sample
+        need = p.get("persist", 0)
+        if need > 0:
+            low = [(t, l[1]) for t, l in enumerate(r["lens"]) if l[1] < need]
+            if r["main"][1] < need or low:
+                t0, h0 = low[0] if low else (-1, r["main"][1])
+                what = (f"the {need} heap object(s) owned by global values are gone: heap.len() = {h0} after sample {t0} "
+                        f"(after global initialisation: {r['main'][1]}): released while still referenced, a use after "
+                        f"release as soon as the owner is read")
+                if f26:
+                    ck.add("known_" + F26)
+                    ck.known(known[F26], f"{p['name']}: {what}")
+                else:
+                    ck.violation(what, rep)
+                continue
+            ck.add("programs_with_persistent_structure_checked")
         if r["st"] != "ok":
             continue
         a, b, c = lens_at(r, N // 2 - 1), lens_at(r, N - 1), lens_at(r, 2 * N - 1)
